@@ -136,7 +136,7 @@ func TestVerifC15(t *testing.T) {
 func c15Stacks(t *testing.T) {
 	const check = "C15.stacks"
 	res := verifrt.NewResult(check)
-	res.Rule = "byte-coded call programs over 64 callees of three generated packages (import paths with dots, dashes, /v2 element, deep path) and the harness package: plain functions, value/pointer methods, generic functions and generic-type methods, closures, nested closures, functions of another package inlined between frames of this one, non-ASCII identifiers (so that truncation can fall inside a character); depth 0..100 plus the harness frames, stack-counter depth 1..250, counter-name prefix length 1..60 (so that truncation cuts at every alignment). For each: two Incs from the same stack hit one counter; stacks that differ in any frame's (symbol, file, line, offset) have different names when untruncated; len <= 4096; truncation marker => uncompressed rendering > 4096, no marker => every frame has a line; every decoded line = full symbol name of that frame + well-formed location; the file decoder returns the expanded names. distinct = distinct PC slices; non-trivial = >= 3 frames"
+	res.Rule = "byte-coded call programs over 64 callees of three generated packages (import paths with dots, dashes, /v2 element, deep path) and the harness package: plain functions, value/pointer methods, generic functions and generic-type methods, closures, nested closures, functions of another package inlined between frames of this one, non-ASCII identifiers (so that truncation can fall inside a character); depth 0..100 plus the harness frames, stack-counter depth 1..250, counter-name prefix length 1..60 (so that truncation cuts at every alignment), and counter names of 3990..9000 bytes fed to the encoder directly. For each: two Incs from the same stack hit one counter; stacks that differ in any frame's (symbol, file, line, offset) have different names when untruncated; len <= 4096; truncation marker => uncompressed rendering > 4096, no marker => every frame has a line; every decoded line = full symbol name of that frame + well-formed location; the file decoder returns the expanded names. distinct = distinct PC slices; non-trivial = >= 3 frames"
 	dir := c09SetDir()
 	defer os.RemoveAll(dir)
 	now := time.Date(2024, 5, 6, 7, 0, 0, 0, time.UTC)
@@ -228,6 +228,22 @@ func c15Stacks(t *testing.T) {
 			}
 		}
 		key := kb.String()
+		if i%10 == 0 {
+			// counter names (the text before the frames) close to and beyond the
+			// size limit themselves: the bound holds all the same
+			for _, pl := range []int{3990, 4080, 4084, 4085, 4086, 4090, 4095, 4096, 4097, 4200, 9000} {
+				en := EncodeStack(spcs, strings.Repeat("q", pl))
+				if len(en) > maxNameLen {
+					res.Violate("name-too-long", fmt.Sprintf("encoded name has %d bytes (limit %d) for a counter name of %d bytes and %d frames", len(en), maxNameLen, pl, len(frames)), replay)
+					break
+				}
+				if pl+1 > maxNameLen && !strings.HasSuffix(en, "\ntruncated\n") {
+					res.Violate("truncation-unmarked", fmt.Sprintf("counter name of %d bytes: encoded name of %d bytes carries no truncation marker", pl, len(en)), replay)
+					break
+				}
+				res.Hit("counter-name-near-limit")
+			}
+		}
 		// bounds and truncation
 		if len(name) > maxNameLen {
 			res.Violate("name-too-long", fmt.Sprintf("encoded name has %d bytes (limit %d), %d frames", len(name), maxNameLen, len(frames)), replay)
@@ -283,7 +299,7 @@ func c15Stacks(t *testing.T) {
 			res.Sample(map[string]any{"case": i, "prog": fmt.Sprint(prog), "depth": depth, "frames": len(frames), "name_bytes": len(name), "name_head": trunc40(strings.ReplaceAll(name, "\n", "⏎"))})
 		}
 	}
-	res.Require("inlined-frame-of-another-package", "non-ascii-symbol", "truncated", "untruncated", "generic-frame", "ditto-used", "via-file", "stack-deeper-than-32")
+	res.Require("counter-name-near-limit", "inlined-frame-of-another-package", "non-ascii-symbol", "truncated", "untruncated", "generic-frame", "ditto-used", "via-file", "stack-deeper-than-32")
 	if err := res.Write(); err != nil {
 		t.Fatal(err)
 	}
